@@ -31,9 +31,9 @@ func (e *evidence) inconclusive(reason string) {
 
 func (e *evidence) write(wall time.Duration) {
 	e.WallS = wall.Seconds()
-	os.MkdirAll(filepath.Join(verifDir, "evidence"), 0o755)
+	os.MkdirAll(outDir("evidence"), 0o755)
 	b, _ := json.MarshalIndent(e, "", " ")
-	os.WriteFile(filepath.Join(verifDir, "evidence", e.PropertyID+".json"), b, 0o644)
+	os.WriteFile(filepath.Join(outDir("evidence"), e.PropertyID+".json"), b, 0o644)
 }
 
 func (e *evidence) fill(p *PropSpec, r *Runner, results []*JobResult, byLabel map[string]*vioReport, order []string,
